@@ -18,6 +18,11 @@ def families():
     fam = {
         "prepare: ? + plain run + unterminated quote": lambda n: b"\x16SELECT ?" + b"x" * n + b"'abc",
         "prepare: ? + plain run + unterminated double quote": lambda n: b"\x16SELECT ? " + b"ab " * (n // 3) + b'"',
+        "prepare: ? + unterminated quote + plain run": lambda n: b"\x16SELECT ? AS '" + b"a" * n,
+        "prepare: ? + unterminated backtick + plain run": lambda n: b"\x16SELECT ? AS `" + b"a" * n,
+        "prepare: ? + mixed-quote literal + plain run": lambda n: b"\x16SELECT ? , \"it's " + b"a" * n + b"\"",
+        "prepare: ? + backslashes + unterminated quote": lambda n: b"\x16SELECT ? AS '" + b"\\a" * (n // 2),
+        "execute text: ? + unterminated quote + plain run": lambda n: b"\x03SELECT ? AS '" + b"a" * n,
         "prepare: many placeholders": lambda n: b"\x16SELECT " + b"?," * n + b"1",
         "prepare: many quotes": lambda n: b"\x16SELECT ?" + b"'" * n,
         "prepare: alternating quotes": lambda n: b"\x16SELECT ?" + b"'\"`" * (n // 3) + b"x",
